@@ -275,6 +275,8 @@ class Parser:
         x = self.peek()
         if x.kind == "id" and x.text == "_":
             self.next(); return ("pwild", x.line)
+        if self.at(".."):      # rest pattern inside a tuple(-struct) pattern: `Occupied(..)`   [serde chain]
+            self.next(); return ("prest", x.line)
         if self.at("("):
             self.next(); subs = []
             while not self.at(")"):
@@ -513,7 +515,11 @@ class Parser:
                 self.next(); args = []
                 while not self.at(close):
                     args.append(self.expr())
-                    if self.at(";"): self.lost("`%s![x; n]` form is outside the subset" % name)
+                    if self.at(";"):
+                        if name == "vec" and close == "]" and len(args) == 1:      # vec![x; n]   [serde chain]
+                            self.next(); n = self.expr(); self.expect(close)
+                            return ("macrorep", x.line, name, args[0], n)
+                        self.lost("`%s![x; n]` form is outside the subset" % name)
                     if not self.accept(","): break
                 self.expect(close)
                 return ("macro", x.line, name, args)
